@@ -434,6 +434,9 @@ def w_embedded(arg):
         for fmt in (b'u', b't', b'b'):
             body = b'see below\n' + inner.encode() + b'\nend\n'
             blob = wire.build_packet(11, fmt + bytes([len(name)]) + name + wire.u32(t) + body)
+            if j % 2 == 0 and fmt != b'b':
+                # old-format packet of indeterminate length (RFC 4880 4.2.1, length type 3: it runs to the end of the input)
+                blob = wire.build_packet(11, fmt + bytes([len(name)]) + name + wire.u32(t) + body, 'old', 3)
             case = {'kind': 'embedded', 'seed': seed}
             printable = all(c >= 0x20 or c in (9, 10, 13) for c in blob[:blob.find(b'-----BEGIN')])
             rec.case(('embedded', j, fmt), True, ('binary-with-armor-inside', 'header-octets/' + ('all-printable' if printable else 'with-control-octets')),
@@ -442,6 +445,9 @@ def w_embedded(arg):
                 try:
                     m = pgpy.PGPMessage.from_blob(inp)
                     got = bytes(m)
+                    if blob[0] & 0xC3 == 0x83:
+                        # (an indeterminate length is re-written as a definite one: the literal packet body is what is compared)
+                        got = wire.build_packet(11, wire.split_packets(got)[0].body, 'old', 3) if wire.split_packets(got)[0].tag == 11 else got
                 except Exception as e:   # noqa
                     rec.finding('object', 'binary-with-armor-inside/load-exception', case, repr(e))
                     continue
